@@ -1,6 +1,6 @@
 """Per-property verification plans: which models TLC explores, which traces are recorded from the
 real code and validated, which TLC-generated vectors are replayed. See DESIGN.md section 6."""
-from vlib import model_check, record_and_validate, gen_and_replay, mkcfg
+from vlib import model_check, record_and_validate, gen_and_replay, mkcfg, build_cli
 
 
 def bdd_jobs(ctx, mode, n, segments, length, nmax):
@@ -244,3 +244,13 @@ def C18(ctx):
     n = 6 if ctx.quick else 40
     record_and_validate(ctx, [("ffi_%d" % i, ["record", "ffi", "--seed", ctx.seed * 1000 + i, "--segments", 5, "--len", 150 if ctx.quick else 300,
                                               "--nmax", 4 + (i % 3)]) for i in range(n)], "TraceBdd", "TraceBdd_C18.cfg")
+
+
+def C19(ctx):
+    ctx.assumptions += ["the binaries are built from /repo's working tree with --features cli into harness/target-cli and run on generated files",
+                        "weights are k/8 (k <= 16): the printed shortest-round-trip decimal parses back to the exact f64; a configured order lists every variable",
+                        "formula variables from a fixed name list whose byte order is a constant of the specification; single-count mode (no partial assignments)"]
+    bindir = build_cli()
+    n = 4 if ctx.quick else 24
+    record_and_validate(ctx, [("cli_%d" % i, ["record", "cli", "--seed", ctx.seed * 1000 + i, "--segments", 25 if ctx.quick else 60,
+                                              "--bindir", bindir, "--work", ctx.work]) for i in range(n)], "TraceSer", "TraceSer.cfg")
